@@ -55,9 +55,14 @@ def check_array_observations(ctx):
     fs = [meta.methods[n] for n in ("__instancecheck__", "__instancecheck_str__", "_check_shape") if n in meta.methods]
     need(len(fs) == 3, "array check methods not found")
     n_uses = 0
-    for f in fs:
+    work = [(f, f.params[1]) for f in fs]
+    done = set()
+    while work:
+        f, obj = work.pop(0)
+        if (f.qualname, obj) in done:
+            continue
+        done.add((f.qualname, obj))
         ctx.saw(f)
-        obj = f.params[1]
         par = _parents(f.node)
         for n in walk_with_lambdas(f.node):
             if not (isinstance(n, ast.Name) and n.id == obj and isinstance(n.ctx, ast.Load)):
@@ -85,6 +90,18 @@ def check_array_observations(ctx):
                     t = m.resolve_call(f, p)
                     if t.kind == "func" and t.target in fs:
                         ok, why = True, f"handed to {t.target.name}"
+                    elif t.kind == "func" and t.target.module.short == "_array_types" and not t.target.decorators:
+                        # a helper of the check: its uses of the value are judged by the same rule
+                        from ..callgraph import _bind_args
+
+                        b = _bind_args(m, f, p, t.target)
+                        pn = [k for k, v in b.items() if v is n]
+                        if pn:
+                            work.append((t.target, pn[0]))
+                            ok, why = True, f"handed to helper {t.target.name} (analysed with the same rule)"
+                        else:
+                            ctx.bad("C17.1", f, p, f"the checked value is passed to `{fn}` in a way that could not be followed")
+                            continue
                     else:
                         ctx.bad("C17.1", f, p, f"the checked value is passed to `{fn}`, which is not one of the analysed check functions: it may read element values / force "
                                 "a tracer to a concrete value")
